@@ -91,8 +91,8 @@ def symbolic_bounds(E, m, which=None, lo=-10, hi=10, inf=False, delta=None, sign
     for r in m.reactions:
         if which is not None and r.id not in which:
             continue
-        lb = E.bound("lb_" + r.id, lo, hi, inf=("-" if inf else False))
-        ub = E.bound("ub_" + r.id, lo, hi, inf=("+" if inf else False))
+        lb = E.bound("lb_" + r.id, lo, hi, inf=("-" if inf is True or inf == "lb" else False))
+        ub = E.bound("ub_" + r.id, lo, hi, inf=("+" if inf is True or inf == "ub" else False))
         for b in (lb, ub):
             if delta is not None and not isinstance(b, float):
                 E.assume(E.any_of([E.eq(b, 0), E.ge(b, delta), E.le(b, -delta)]))
